@@ -2,13 +2,15 @@
 from harness import coqio as q
 
 ID = "C10"
-COQ_REQUIRE = ["Net", "M_Select"]
-COQ_CASE_TYPE = "M_Select.case"
-COQ_CHECK = "M_Select.check_case"
+COQ_REQUIRE = ["Net", "M_Select", "M_SelectBest"]
+COQ_CASE_TYPE = "M_SelectBest.case2"
+COQ_CHECK = "M_SelectBest.check_case2"
 OBLIGATIONS = ["funnel_in_domain", "dsatuto_selects_in_domain", "adsa_selects_in_domain", "gdba_selects_in_domain",
                "dpop_selects_in_domain", "syncbb_selects_in_domain", "mgm_selects_in_domain",
                "mgm2_selects_in_domain", "mgm2_messages_in_domain", "dsa_selects_in_domain",
-               "dba_selects_in_domain_partial", "dba_selects_in_domain_refuted",
+               "dba_selects_in_domain_partial", "dba_selects_in_domain_refuted", "dba_selects_in_domain",
+               "adsa_find_best_values_spec", "gdba_compute_best_improvement_spec",
+               "adsa2_selects_in_domain", "gdba2_selects_in_domain",
                "maxsum_selects_in_domain", "amaxsum_selects_in_domain", "C10_all"]
 N_QUICK, N_THOROUGH = 660, 8800
 PARALLEL = 8
@@ -32,7 +34,13 @@ MODELLED = ("Theorems (all schedules, all instances, all draws): in-domain selec
             "every variable computation of every algorithm is replayed on the funnel model (fired / current_value), "
             "and whole runs of dsatuto, adsa, gdba are replayed on their models (every selection event, finished, "
             "final values).  The oracle checks membership (==) of every value passed to value_selection, reported by "
-            "_on_value_selection or returned by current_value, for all 11 algorithms.")
+            "_on_value_selection or returned by current_value, for all 11 algorithms.  Deepenings: DBA is proved in "
+            "full on well-formed problems (no IndexError clause, also after finished(); counting barrier invariant "
+            "P_SelectDba2.KI), and the oracle checks that hypothesis (each real DbaComputation holds exactly the "
+            "constraints its variable occurs in); adsa.find_best_values and gdba._compute_best_improvement are "
+            "modelled (M_SelectBest.fbv / cbi): the driver records the cost of every domain value, the model computes "
+            "the best-value list and the branch value itself and both are compared with what the implementation "
+            "returned, tick by tick; their specification (exactly the optimal values, in domain order) is a theorem.")
 META = dict(
     level_text=("Proof (Coq): for every problem instance, every random draw and every schedule of starts and "
                 "per-channel-FIFO deliveries (messages received before start included), every value-selection event "
@@ -42,9 +50,12 @@ META = dict(
                 "statement about the code rests on the correspondence runs that replay real executions of all 11 "
                 "algorithms on the models."),
     level_note=("Hypotheses: non-empty domains; a declared initial value is a domain member (enforced by "
-                "Variable.__init__).  dsatuto/adsa/gdba are selection-only models: cost evaluation is an explicit "
-                "input stream (sign + mask of the best values over the domain); optimal_cost_value of an isolated "
-                "variable is an input covered by C06.  Trusted: Coq kernel/vm_compute, the M_*.v files as renderings "
+                "Variable.__init__); for DBA a well-formed constraint graph (checked on every generated run; without "
+                "it only the partial statement holds and a refuting run of the model is given).  dsatuto/adsa/gdba "
+                "are selection-only models: constraint evaluation is an explicit input stream (adsa, gdba: the cost "
+                "of every domain value, the best-value list is computed by the modelled find_best_values / "
+                "_compute_best_improvement; dsatuto: sign + mask of find_optimal's list); optimal_cost_value of an "
+                "isolated variable is an input covered by C06.  Trusted: Coq kernel/vm_compute, the M_*.v files as renderings "
                 "of the Python code, the thread-free netdriver."),
     technique="Coq invariant proofs over executable network models + schedule-replay correspondence on all algorithms",
     design_ref="DESIGN.md §5 C10",
@@ -190,6 +201,17 @@ def oracle(case, o):
     for n_, f in o["final"].items():
         if f[0] == -1:
             return "%s %s: final current_value %s is not in the domain" % (case["algo"], n_, f[1])
+    if case["algo"] == "dba" and o.get("dba_graph") is not None:
+        # hypothesis of dba_selects_in_domain (M_Dba.wf_problem), stated independently on the generated instance:
+        # every computation holds exactly the constraints its variable occurs in; neighbours = the other variables
+        # of those constraints (hence symmetric neighbour sets)
+        for i, n_ in enumerate(names):
+            want_c = sorted("c%02d" % k for k, c in enumerate(case["cons"]) if i in c["scope"])
+            want_n = sorted({"v%02d" % j for c in case["cons"] if i in c["scope"] for j in c["scope"] if j != i})
+            got = o["dba_graph"].get(n_)
+            if got != [want_c, want_n]:
+                return ("dba %s: computation holds constraints/neighbours %s, expected %s: the hypothesis "
+                        "wf_problem of dba_selects_in_domain does not hold for this run" % (n_, got, [want_c, want_n]))
     if o.get("model") and o["model"]["mask_bad"]:
         return "%s: best-value list %s is not a sub-list of the domain" % (case["algo"], o["model"]["mask_bad"][0])
     return None
@@ -214,7 +236,7 @@ def _mask(m):
 
 def coq_case(case, o):
     if o.get("rejected"):
-        return "mkCase [] ANone"
+        return "mkCase2 [] (A2Old ANone)"
     names = o["varcomps"]
     funnel = []
     for n_ in names:
@@ -247,16 +269,20 @@ def coq_case(case, o):
                          for n_ in names])
             model = "(ATuto %s %s)" % (run, evs)
         elif algo == "adsa":
-            evs = q.lst([q.pair(q.z(_id(n_)), q.lst(["(%s, %s, %s)" % (q.b(r[0]), q.b(r[1]), _mask(r[2]))
-                                                     for r in m["evs"][n_]])) for n_ in names])
+            # record = inputs (cost of every domain value, cost of the current value, violated flag) + what the
+            # implementation derived (delta > 0, mask of the list find_best_values returned)
+            evs = q.lst([q.pair(q.z(_id(n_)), q.lst(["(%s, %s, %s, %s, %s)" % (
+                q.zlist(r[3]), q.z(r[4]), q.b(r[1]), q.b(r[0]), _mask(r[2])) for r in m["evs"][n_]])) for n_ in names])
             variant = "ABC".index(case["params"].get("variant", "B"))
             prob = int(round(case["params"].get("probability", 0.7) * 1000))
-            model = "(AAdsa %s %s %s %s)" % (run, q.z(variant), q.z(prob), evs)
+            return "mkCase2 %s (A2Adsa %s %s %s %s)" % (q.lst(funnel), run, q.z(variant), q.z(prob), evs)
         elif algo == "gdba":
-            evs = q.lst([q.pair(q.z(_id(n_)), q.lst([q.pair(q.z(r[0]), _mask(r[1])) for r in m["evs"][n_]]))
-                         for n_ in names])
-            model = "(AGdba %s %s)" % (run, evs)
-    return "mkCase %s %s" % (q.lst(funnel), model)
+            # record = inputs (__cost__, eval of every domain value) + what the implementation derived
+            # (_my_improve, mask of the list _compute_best_improvement returned)
+            evs = q.lst([q.pair(q.z(_id(n_)), q.lst(["(%s, %s, %s, %s)" % (
+                q.z(r[2]), q.zlist(r[3]), q.z(r[0]), _mask(r[1])) for r in m["evs"][n_]])) for n_ in names])
+            return "mkCase2 %s (A2Gdba %s %s)" % (q.lst(funnel), run, evs)
+    return "mkCase2 %s (A2Old %s)" % (q.lst(funnel), model)
 
 
 # ------------------------------------------------------------------ evidence helpers
